@@ -88,6 +88,7 @@ import JdProofs.V1KeysDiffPatchD
 import JdProofs.V1KeysDiffPatchC
 import JdProofs.V1KeysDiffPatchB
 import JdProofs.V1KeysDiffPatchA
+import JdProofs.V1Precision
 
 set_option autoImplicit false
 
@@ -443,5 +444,41 @@ theorem keyless_member_fails_through_text (nc : NumCodec)
       = .ok (some text)) :
     ∃ d', V1.readDiffM nc text = .ok d' ∧ V1.patchM Jd.V1K.Witness.ha d' = .err :=
   Jd.V1K.keyless_member_breaks_text nc hc text hr
+
+/-! ## v1 with SetPrecision(eps ≠ 0), list reading — proofs in JdProofs/V1Precision.lean (ns `Jd.V1Pr`) -/
+
+section
+open Jd Jd.Spec Jd.DPL Jd.V1P Jd.V1Pr Jd.V1S
+
+/-- **C17 with SetPrecision(eps), eps finite and non-negative, list reading**: v1 Diff honours the precision (unlike v2), Patch checks old values exactly — they are values of `a` itself — so the patch applies and the result Equals `b` under the metadata (it keeps the numbers of `a` that were within eps); `precNN` is needed (`V1Pr.precNN_needed`) -/
+theorem v1_diff_patch_list_precision (L : FloatLaws) {N : Nat} (I : IdxLaws N) (m : V1.Metas)
+    (hm : PrecMode m) (a b : Json)
+    (ha1 : a.listDoc = true) (ha2 : a.wf = true) (ha3 : a.finiteNums = true) (ha4 : vfree a = true)
+    (ha5 : lenLe N a = true)
+    (hb1 : b.listDoc = true) (hb2 : b.wf = true) (hb3 : b.finiteNums = true) (hb4 : vfree b = true) :
+    ∃ r, V1.patchM a (V1.diffM m a b) = .ok r ∧ V1.equals m r b = true ∧
+      V1.equals m b r = true ∧ equivB (optsOf m) r b = true ∧ r.listDoc = true ∧ r.wf = true :=
+  Jd.V1Pr.v1_diff_patch_list_precision (L := L) (N := N) (I := I) (m := m) (hm := hm) (a := a) (b := b) (ha1 := ha1) (ha2 := ha2) (ha3 := ha3) (ha4 := ha4) (ha5 := ha5) (hb1 := hb1) (hb2 := hb2) (hb3 := hb3) (hb4 := hb4)
+
+/-- in v1 the diff is empty exactly when Equals holds, for ANY precision (no float law): KF-C05-precision is a v2 finding only -/
+theorem v1_diff_empty_iff_equals_precision (m : V1.Metas) (hm : ListReading m) (a b : Json)
+    (ha1 : a.rawDoc = true) (ha2 : a.wf = true) (hb1 : b.listDoc = true) (hb2 : b.wf = true) :
+    V1.diffM m a b = [] ↔ V1.equals m a b = true :=
+  Jd.V1Pr.v1_diff_empty_iff_equals_precision (m := m) (hm := hm) (a := a) (b := b) (ha1 := ha1) (ha2 := ha2) (hb1 := hb1) (hb2 := hb2)
+
+/-- … and after Render and ReadDiffString -/
+theorem v1_text_roundtrip_list_precision (L : FloatLaws) {N : Nat} (I : IdxLaws N) (nc : NumCodec)
+    (m : V1.Metas) (hm : PrecMode m) (a b : Json)
+    (ha1 : a.listDoc = true) (ha2 : a.wf = true) (ha3 : a.finiteNums = true) (ha4 : vfree a = true)
+    (ha5 : lenLe N a = true)
+    (hb1 : b.listDoc = true) (hb2 : b.wf = true) (hb3 : b.finiteNums = true) (hb4 : vfree b = true)
+    (hbv : b.isVoid = false)
+    (hc : CodecOK nc (V1.diffM m a b)) (text : String)
+    (hr : V1.renderM nc false (V1.liftDiff (V1.diffM m a b)) = .ok (some text)) :
+    ∃ d' r, V1.readDiffM nc text = .ok d' ∧ V1.patchM a d' = .ok r ∧ V1.equals m r b = true ∧
+      equivB (optsOf m) r b = true :=
+  Jd.V1Pr.v1_text_roundtrip_list_precision (L := L) (N := N) (I := I) (nc := nc) (m := m) (hm := hm) (a := a) (b := b) (ha1 := ha1) (ha2 := ha2) (ha3 := ha3) (ha4 := ha4) (ha5 := ha5) (hb1 := hb1) (hb2 := hb2) (hb3 := hb3) (hb4 := hb4) (hbv := hbv) (hc := hc) (text := text) (hr := hr)
+
+end
 
 end Jd.Props.C17
